@@ -9,9 +9,42 @@ import json, sys, os
 scratch, cases_p, results_p, start = sys.argv[1], sys.argv[2], sys.argv[3], int(sys.argv[4])
 sys.path.insert(0, scratch)
 import numpy as np  # noqa: E402
-from fastparquet import cencoding as ce  # noqa: E402
-from fastparquet import speedups as sp  # noqa: E402
-from fastparquet import encoding as enc  # noqa: E402
+import importlib.util, glob  # noqa: E402
+
+
+def _load(mod):
+    """load an extension module of the scratch package directly (fast restart: no pandas import)"""
+    path = glob.glob(os.path.join(scratch, "fastparquet", mod + ".*.so"))[0]
+    spec = importlib.util.spec_from_file_location("fastparquet." + mod, path)
+    m = importlib.util.module_from_spec(spec)
+    spec.loader.exec_module(m)
+    return m
+
+
+ce = _load("cencoding")
+sp = _load("speedups")
+
+
+class _LazyEnc:
+    def __getattr__(self, name):
+        from fastparquet import encoding as _e
+        return getattr(_e, name)
+
+
+enc = _LazyEnc()
+
+
+EXACT = bool(os.environ.get("VERIF_EXACT"))
+
+
+def inbuf(hexs_):
+    """input buffer; under the sanitizer build an exactly sized heap array so that any over-read is seen"""
+    b = bytes.fromhex(hexs_)
+    if EXACT:
+        a = np.empty(len(b), dtype="uint8")
+        a[:] = np.frombuffer(b, dtype="uint8")
+        return a
+    return np.frombuffer(b, dtype="uint8")
 
 
 def u(items, item):
@@ -27,7 +60,7 @@ def out_items(o_arr, nbytes, item):
 def run(c):
     k = c["k"]
     if k == "uvarint":
-        buf = np.frombuffer(bytes.fromhex(c["in"]), dtype="uint8")
+        buf = inbuf(c["in"])
         io = ce.NumpyIO(buf)
         io.seek(c.get("loc", 0))
         v = ce.read_unsigned_var_int(io)
@@ -38,7 +71,7 @@ def run(c):
         ce.encode_unsigned_varint(c["x"], io)
         return {"out": bytes(o[: io.tell()]).hex()}
     if k in ("read_rle", "read_bitpacked", "read_bitpacked1", "hybrid"):
-        buf = np.frombuffer(bytes.fromhex(c["in"]), dtype="uint8")
+        buf = inbuf(c["in"])
         io = ce.NumpyIO(buf)
         io.seek(c.get("loc", 0))
         o = np.zeros(max(c["cap"], 1), dtype="uint8")[: c["cap"]] if c["cap"] == 0 else np.zeros(c["cap"], dtype="uint8")
@@ -70,7 +103,7 @@ def run(c):
         ce.encode_bitpacked(vals, c["width"], io)
         return {"out": bytes(o[: io.tell()]).hex()}
     if k == "delta":
-        buf = np.frombuffer(bytes.fromhex(c["in"]), dtype="uint8")
+        buf = inbuf(c["in"])
         io = ce.NumpyIO(buf)
         longval = c.get("long", 0)
         o = np.zeros(max(c["cap"], 1), dtype="int64" if longval else "int32")
@@ -81,7 +114,7 @@ def run(c):
         items = [bytes.fromhex(x) for x in c["items"]]
         return {"out": bytes(sp.pack_byte_array(items)).hex()}
     if k == "unpack_ba":
-        raw = np.frombuffer(bytes.fromhex(c["in"]), dtype="uint8")
+        raw = inbuf(c["in"])
         res = sp.unpack_byte_array(raw, c["n"])
         return {"out": [None if x is None else bytes(x).hex() for x in res]}
     if k == "plain_bool":
@@ -130,7 +163,7 @@ def run(c):
         return {"out": b1.hex(), "reser": b2.hex(), "eq": bool(obj == back) if back is not None else None, "pickle": b3.hex()}
     if k == "thrift_roundtrip":
         # bytes -> from_buffer -> to_bytes
-        buf = np.frombuffer(bytes.fromhex(c["in"]), dtype="uint8")
+        buf = inbuf(c["in"])
         obj = ce.from_buffer(buf, c.get("name") or "FileMetaData")
         return {"out": bytes(obj.to_bytes()).hex()}
     raise ValueError("unknown kernel " + k)
@@ -143,6 +176,8 @@ with open(results_p, "a") as out:
         # announce before running so a crash is attributable
         out.write(json.dumps({"i": i, "begin": True}) + "\n")
         out.flush()
+        sys.stderr.write("\n@@CASE %d\n" % i)
+        sys.stderr.flush()
         try:
             r = run(cases[i])
             r["i"] = i
